@@ -101,8 +101,8 @@ class RefCloud:
             raise httpx.RemoteProtocolError("Server disconnected without sending a response.", request=request)
         if answer == "decode":
             raise httpx.DecodingError("Error -3 while decompressing data: incorrect header check", request=request)
-        if answer == "500":
-            return httpx.Response(500, text="server error", request=request)
+        if answer in ("500", "502", "503", "504"):
+            return httpx.Response(int(answer), text="server error", request=request)
         if answer == "404":
             return httpx.Response(404, text="<html>not found</html>", request=request)
         if answer == "302":
